@@ -93,6 +93,10 @@ class DensityMatrixEvolution(MatrixData, BasisManaged, Saveable):
             S1 = inv
 
         #S1 = scipy.linalg.inv(SS)                 
+        # the representation in a complex basis is complex: real storage
+        # would silently drop its imaginary part
+        if numpy.iscomplexobj(SS) and not numpy.iscomplexobj(self._data):
+            self._data = self._data.astype(numpy.complex128)
         for ii in range(self.TimeAxis.length):
             self._data[ii,:,:] = numpy.dot(S1,
                     numpy.dot(self._data[ii,:,:],SS))    
